@@ -10,14 +10,15 @@ import sympy as sp
 from vcheck import cfront, csymx, rules
 from vcheck.core import PyRepo, AnalysisError, call_name, const_value, kwarg, norm, walk_no_nested
 from vcheck.cfront import callee_name, render, strip, walk
-from checks.C12 import guard_facts, array_read, node_defs, ref_desc, ref_desc_in, cfg_succ, _norm_f8, _size_checks
+from checks.C12 import guard_facts, array_read, node_defs, ref_desc, ref_desc_in, cfg_succ, _norm_f8, _size_checks, per_point_values_rule
 
 MANIFEST = dict(
     text="Narrow structural claim over the clang AST of htmc.cc and the Python ast of htm.py (the geometric clauses are NOT decided): "
          "(1) id lookup: element i of the output is lookupID(ra[i], dec[i]) of the tree built at the object's depth, for all i, through one "
          "code path for scalars and arrays (inputs become fresh float64 1-d arrays, output int64 of the same size); (2) circle lists: the "
          "cap is cos(radius*pi/180) about (ra, dec), the result holds the fully-inside list and, exactly when inclusive, the partial list, "
-         "each completely and in order; (3) pair counting: per-point scale read with the point's index (element 0 for a scalar scale), "
+         "each completely and in order; (3) pair counting: per-point scale read with the point's index (element 0 for a scalar scale) and, with its logarithm, "
+         "never used inside the loop before its assignment of the same iteration (no point is searched with its predecessor's scale), "
          "degrees iff no scale; search cap cos(rmax/scale [*pi/180]) about the first-set point, candidates from both triangle lists "
          "restricted to [minid, maxid], members of a leaf are rev[rev[k] .. rev[k+1]) with k = id - minid (the histogram's reverse-index "
          "convention); separation = gcirc(point 1, point 2, degrees) with matching units; a pair is counted once, in bin "
@@ -37,7 +38,7 @@ SRC = "esutil/htm/htmc.cc"
 
 # rules that keep their verdict however the code is laid out (decided by term equality, effect analysis or dominance over
 # resolved calls); every other rule of this check is a template rule (vcheck.core.Check.obt)
-SEMANTIC = ('R13.2::HTM.intersect::flag-mapping', 'R13.3::cbincount::lower-edge-guard-on-untruncated-value', 'R13.3::cbincount::upper-bin-guard', 'R13.4', 'R13.5', 'R13.6')
+SEMANTIC = ('R13.2::HTM.intersect::flag-mapping', 'R13.3::cbincount::lower-edge-guard-on-untruncated-value', 'R13.3::cbincount::upper-bin-guard', 'R13.3::cbincount::per-point-value', 'R13.4', 'R13.5', 'R13.6')
 
 
 def run(chk):
@@ -259,6 +260,8 @@ def bincount_c(chk, decl):
         raise AnalysisError("HTMC::cbincount has %d parameters, expected 11" % len(P))
     p_rmin, p_rmax, p_nbin, p_ra1, p_dec1, p_ra2, p_dec2, p_rev, p_mm, p_scale, p_verb = P
     cfg, view = f.cfg, f.view
+    # per-point scale (and its logarithm): the search radius, the distance cut and the bin of point i1 all use the scale of point i1
+    per_point_values_rule(chk, "R13.3", "cbincount", f, _outer_loop(f, p_ra1), {("param", p) for p in (p_ra1, p_dec1, p_scale)})
     # the counting site
     incs = []
     for n in cfg.nodes:
